@@ -244,6 +244,9 @@ pub struct PubCase {
     /// Some(n): instead of the property-set table, one Content Type property of n bytes (property-block length boundaries)
     #[serde(default)]
     pub prop_str_len: Option<usize>,
+    /// order of the builder calls (see `eval_pub`)
+    #[serde(default)]
+    pub order: u8,
 }
 
 fn pub_prop_sets() -> Vec<Vec<Prop>> {
@@ -310,20 +313,38 @@ pub fn eval_pub(c: &PubCase) -> CaseOut {
             let Conn::Ok(mut conn, id) = connect(bench, s, &ca) else { return None };
             let before = bench.written(id).len();
             let props = props_of(&props_ref);
-            let mut publication = Publication::bytes(&topic, &payload).qos(qos_of(c.qos));
-            if c.correlate_first {
-                if let Some(cd) = &corr {
-                    publication = publication.correlate(cd);
-                }
-                publication = publication.properties(&props);
+            // the builder calls are chained in the `order`-th of their 24 orders (order 0 = qos, properties,
+            // correlate, retain, or with `correlate_first` qos, correlate, properties, retain)
+            let perm: Vec<u8> = if c.order == 0 {
+                if c.correlate_first { vec![0, 2, 1, 3] } else { vec![0, 1, 2, 3] }
             } else {
-                publication = publication.properties(&props);
-                if let Some(cd) = &corr {
-                    publication = publication.correlate(cd);
+                let mut steps = vec![0u8, 1, 2, 3];
+                let mut k = (c.order % 24) as usize;
+                let mut perm = Vec::new();
+                for n in (1..=4usize).rev() {
+                    let f: usize = (1..n).product();
+                    perm.push(steps.remove(k / f));
+                    k %= f;
                 }
-            }
-            if c.retain {
-                publication = publication.retain();
+                perm
+            };
+            macro_rules! chain {
+                ($q:expr) => {{
+                    let mut q = $q;
+                    for st in &perm {
+                        q = match *st {
+                            0 if c.qos != 0 || c.order == 0 => q.qos(qos_of(c.qos)),
+                            1 => q.properties(&props),
+                            2 => match &corr {
+                                Some(cd) => q.correlate(cd),
+                                None => q,
+                            },
+                            3 if c.retain => q.retain(),
+                            _ => q,
+                        };
+                    }
+                    q
+                }};
             }
             let r = match c.payload_kind {
                 1 => {
@@ -336,43 +357,18 @@ pub fn eval_pub(c: &PubCase) -> CaseOut {
                         buf[..src.len()].copy_from_slice(&src);
                         Ok(src.len())
                     };
-                    let mut q = Publication::new(&topic, f).qos(qos_of(c.qos));
-                    if c.correlate_first {
-                        if let Some(cd) = &corr {
-                            q = q.correlate(cd);
-                        }
-                        q = q.properties(&props);
-                    } else {
-                        q = q.properties(&props);
-                        if let Some(cd) = &corr {
-                            q = q.correlate(cd);
-                        }
-                    }
-                    if c.retain {
-                        q = q.retain();
-                    }
+                    let q = chain!(Publication::new(&topic, f));
                     bench.run(conn.publish(q), id)
                 }
                 2 => {
                     let text = std::str::from_utf8(&payload).unwrap();
-                    let mut q = Publication::text(&topic, text).qos(qos_of(c.qos));
-                    if c.correlate_first {
-                        if let Some(cd) = &corr {
-                            q = q.correlate(cd);
-                        }
-                        q = q.properties(&props);
-                    } else {
-                        q = q.properties(&props);
-                        if let Some(cd) = &corr {
-                            q = q.correlate(cd);
-                        }
-                    }
-                    if c.retain {
-                        q = q.retain();
-                    }
+                    let q = chain!(Publication::text(&topic, text));
                     bench.run(conn.publish(q), id)
                 }
-                _ => bench.run(conn.publish(publication), id),
+                _ => {
+                    let q = chain!(Publication::bytes(&topic, &payload));
+                    bench.run(conn.publish(q), id)
+                }
             };
             let r = match r {
                 Some(Ok(h)) => Ok(h.is_some()),
@@ -473,7 +469,7 @@ pub fn eval_pub(c: &PubCase) -> CaseOut {
 fn pub_cases(tier: Tier) -> Vec<PubCase> {
     let mut v = Vec::new();
     let nsets = pub_prop_sets().len();
-    let base = PubCase { tx: 512, topic_len: 1, payload_len: 2, qos: 0, retain: false, props: 0, correlate: None, max_packet: None, correlate_first: false, topic_kind: 0, payload_kind: 0, prop_str_len: None };
+    let base = PubCase { tx: 512, topic_len: 1, payload_len: 2, qos: 0, retain: false, props: 0, correlate: None, max_packet: None, correlate_first: false, topic_kind: 0, payload_kind: 0, prop_str_len: None, order: 0 };
     // flags x property sets x correlate
     for qos in 0..3u8 {
         for retain in [false, true] {
@@ -482,6 +478,18 @@ fn pub_cases(tier: Tier) -> Vec<PubCase> {
                     v.push(PubCase { qos, retain, props, correlate, tx: 1024, ..base.clone() });
                     if correlate.is_some() {
                         v.push(PubCase { qos, retain, props, correlate, tx: 1024, correlate_first: true, ..base.clone() });
+                    }
+                }
+            }
+        }
+    }
+    // every order of chaining qos / properties / correlate / retain
+    for order in 1..24u8 {
+        for qos in 0..3u8 {
+            for retain in [false, true] {
+                for (props, correlate) in [(0usize, None), (11, None), (0, Some(4usize)), (11, Some(4)), (nsets - 2, Some(0))] {
+                    for payload_kind in 0..3u8 {
+                        v.push(PubCase { qos, retain, props, correlate, payload_kind, order, tx: 1024, ..base.clone() });
                     }
                 }
             }
@@ -575,6 +583,10 @@ pub struct SubCase {
     pub filters: Vec<(usize, u8)>,
     pub props: usize,
     pub tx: usize,
+    /// order in which the four builder calls of `SubscriptionOptions` are chained (0..24; calls for options left at
+    /// their default are made only for orders >= 24: 24..48 = the same orders with every call made explicitly)
+    #[serde(default)]
+    pub order: u8,
 }
 
 fn sub_prop_sets() -> Vec<Vec<Prop>> {
@@ -587,21 +599,34 @@ fn sub_prop_sets() -> Vec<Vec<Prop>> {
     sets
 }
 
-fn option_byte(code: u8) -> (u8, SubscriptionOptions) {
+fn option_byte(code: u8, order: u8) -> (u8, SubscriptionOptions) {
     let qos = code % 3;
     let nl = (code / 3) % 2 == 1;
     let rap = (code / 6) % 2 == 1;
     let rh = (code / 12) % 3;
-    let mut o = SubscriptionOptions::default().maximum_qos(qos_of(qos)).retain_behavior(match rh {
-        0 => RetainHandling::Immediately,
-        1 => RetainHandling::IfSubscriptionDoesNotExist,
-        _ => RetainHandling::Never,
-    });
-    if nl {
-        o = o.ignore_local_messages();
+    // the k-th permutation of the four builder calls
+    let mut steps = vec![0u8, 1, 2, 3];
+    let mut k = (order % 24) as usize;
+    let mut perm = Vec::new();
+    for n in (1..=4usize).rev() {
+        let f: usize = (1..n).product();
+        perm.push(steps.remove(k / f));
+        k %= f;
     }
-    if rap {
-        o = o.retain_as_published();
+    let explicit = order >= 24;
+    let mut o = SubscriptionOptions::default();
+    for st in perm {
+        o = match st {
+            0 if qos != 0 || explicit || order == 0 => o.maximum_qos(qos_of(qos)),
+            1 if rh != 0 || explicit || order == 0 => o.retain_behavior(match rh {
+                0 => RetainHandling::Immediately,
+                1 => RetainHandling::IfSubscriptionDoesNotExist,
+                _ => RetainHandling::Never,
+            }),
+            2 if nl => o.ignore_local_messages(),
+            3 if rap => o.retain_as_published(),
+            _ => o,
+        };
     }
     (qos | (nl as u8) << 2 | (rap as u8) << 3 | rh << 4, o)
 }
@@ -632,7 +657,7 @@ pub fn eval_sub(c: &SubCase) -> CaseOut {
                 let t: Vec<&str> = names.iter().map(|x| x.as_str()).collect();
                 bench.run(conn.unsubscribe(&t, &props), id).map(|r| r.map(|_| ()).map_err(|e| Res::from_err(&e)))
             } else {
-                let t: Vec<TopicFilter<'_>> = names.iter().zip(c.filters.iter()).map(|(n, (_, code))| TopicFilter::new(n).options(option_byte(*code).1)).collect();
+                let t: Vec<TopicFilter<'_>> = names.iter().zip(c.filters.iter()).map(|(n, (_, code))| TopicFilter::new(n).options(option_byte(*code, c.order).1)).collect();
                 bench.run(conn.subscribe(&t, &props), id).map(|r| r.map(|_| ()).map_err(|e| Res::from_err(&e)))
             };
             Some((r.unwrap_or(Err(Res::Cancelled)), bench.written(id)[before..].to_vec(), conn.session().is_publish_quiescent()))
@@ -645,7 +670,7 @@ pub fn eval_sub(c: &SubCase) -> CaseOut {
             Ok(()) => {
                 match mr::decode_client(&written) {
                     Ok((CPacket::Subscribe { props, filters, .. }, n)) if n == written.len() && !c.unsubscribe => {
-                        let want: Vec<(Vec<u8>, u8)> = names.iter().zip(c.filters.iter()).map(|(n, (_, code))| (n.as_bytes().to_vec(), option_byte(*code).0)).collect();
+                        let want: Vec<(Vec<u8>, u8)> = names.iter().zip(c.filters.iter()).map(|(n, (_, code))| (n.as_bytes().to_vec(), option_byte(*code, c.order).0)).collect();
                         if filters != want {
                             flag(&mut viol, "subscribe-field", "filters", format!("SUBSCRIBE decodes to {:?}, requested {:?}", filters.iter().map(|f| (f.0.len(), f.1)).collect::<Vec<_>>(), c));
                         }
@@ -702,38 +727,44 @@ fn sub_cases(_tier: Tier) -> Vec<SubCase> {
     let nsets = sub_prop_sets().len();
     for code in 0..36u8 {
         for props in 0..nsets {
-            v.push(SubCase { unsubscribe: false, filters: vec![(3, code)], props, tx: 256 });
+            v.push(SubCase { unsubscribe: false, filters: vec![(3, code)], props, tx: 256, order: 0 });
+        }
+    }
+    // every order of chaining the builder calls, with and without the calls that only restate a default
+    for code in 0..36u8 {
+        for order in 1..48u8 {
+            v.push(SubCase { unsubscribe: false, filters: vec![(3, code)], props: 0, tx: 256, order });
         }
     }
     for a in 0..36u8 {
         for b in 0..36u8 {
-            v.push(SubCase { unsubscribe: false, filters: vec![(2, a), (5, b)], props: 0, tx: 256 });
+            v.push(SubCase { unsubscribe: false, filters: vec![(2, a), (5, b)], props: 0, tx: 256, order: 0 });
         }
     }
     for n in [0usize, 1, 2, 3] {
         for props in [0usize, 9, 10] {
-            v.push(SubCase { unsubscribe: true, filters: (0..n).map(|i| (1 + 2 * i, 0)).collect(), props, tx: 256 });
-            v.push(SubCase { unsubscribe: false, filters: (0..n).map(|i| (1 + 2 * i, (i * 7) as u8)).collect(), props, tx: 256 });
+            v.push(SubCase { unsubscribe: true, filters: (0..n).map(|i| (1 + 2 * i, 0)).collect(), props, tx: 256, order: 0 });
+            v.push(SubCase { unsubscribe: false, filters: (0..n).map(|i| (1 + 2 * i, (i * 7) as u8)).collect(), props, tx: 256, order: 0 });
         }
     }
     // many filters in one request (the remaining length crosses 127 and 16383 by count, not by one long filter); the
     // same filter twice
     for n in [4usize, 7, 8, 9, 15, 16, 17, 24, 31, 32, 33, 40, 64, 200, 255, 256, 257, 2000] {
         for props in [0usize, 9] {
-            v.push(SubCase { unsubscribe: true, filters: (0..n).map(|i| (1 + i % 5, 0)).collect(), props, tx: 20_000 });
-            v.push(SubCase { unsubscribe: false, filters: (0..n).map(|i| (1 + i % 5, (i % 36) as u8)).collect(), props, tx: 20_000 });
+            v.push(SubCase { unsubscribe: true, filters: (0..n).map(|i| (1 + i % 5, 0)).collect(), props, tx: 20_000, order: 0 });
+            v.push(SubCase { unsubscribe: false, filters: (0..n).map(|i| (1 + i % 5, (i % 36) as u8)).collect(), props, tx: 20_000, order: 0 });
         }
     }
-    v.push(SubCase { unsubscribe: false, filters: vec![(3, 1), (3, 1)], props: 0, tx: 256 });
-    v.push(SubCase { unsubscribe: false, filters: vec![(3, 1), (3, 20)], props: 0, tx: 256 });
-    v.push(SubCase { unsubscribe: true, filters: vec![(3, 0), (3, 0)], props: 0, tx: 256 });
+    v.push(SubCase { unsubscribe: false, filters: vec![(3, 1), (3, 1)], props: 0, tx: 256, order: 0 });
+    v.push(SubCase { unsubscribe: false, filters: vec![(3, 1), (3, 20)], props: 0, tx: 256, order: 0 });
+    v.push(SubCase { unsubscribe: true, filters: vec![(3, 0), (3, 0)], props: 0, tx: 256, order: 0 });
     for len in [0usize, 1, 127, 128, 65535, 65536] {
-        v.push(SubCase { unsubscribe: false, filters: vec![(len, 1)], props: 0, tx: 70_000 });
-        v.push(SubCase { unsubscribe: true, filters: vec![(len, 0)], props: 0, tx: 70_000 });
+        v.push(SubCase { unsubscribe: false, filters: vec![(len, 1)], props: 0, tx: 70_000, order: 0 });
+        v.push(SubCase { unsubscribe: true, filters: vec![(len, 0)], props: 0, tx: 70_000, order: 0 });
     }
     for tx in 30..=60usize {
-        v.push(SubCase { unsubscribe: false, filters: vec![(3, 1)], props: 0, tx });
-        v.push(SubCase { unsubscribe: true, filters: vec![(3, 0)], props: 0, tx });
+        v.push(SubCase { unsubscribe: false, filters: vec![(3, 1)], props: 0, tx, order: 0 });
+        v.push(SubCase { unsubscribe: true, filters: vec![(3, 0)], props: 0, tx, order: 0 });
     }
     v
 }
